@@ -191,7 +191,7 @@ pub fn make_writer<'a, W: Write + 'a>(case: &Case, sink: W, total: usize) -> io:
             let hdr = case.knob("hdr") != 0;
             let marker = case.knob("marker") != 0;
             let sized = case.knob("sized") != 0;
-            let expected = if sized { Some((total as i64 + case.knob("size_delta")) as u64) } else { None };
+            let expected = if sized { Some((total as i64 + case.knob("size_delta")).max(0) as u64) } else { None };
             Box::new(lz::LZMAWriter::new(sink, &lzma_options(o), hdr, marker, expected)?)
         }
         "lzma2" => Box::new(lz::LZMA2Writer::new(sink, lzma2_options(o))),
